@@ -111,7 +111,28 @@ pub fn run_composite(rep: &mut Report, p: &Params, xs: &[In]) {
         }
         let out = match comp.feed(x) {
             Ok(o) => o,
-            Err(_) => return,
+            Err(pn) => {
+                // the composite gave no output at all for an input its parts are about to digest: report it here
+                // if the parts do (a panic of a part as well is C12's business alone)
+                let parts_ok = match kind {
+                    Kind::Bb => sma.feed(x).is_ok() && sd.feed(x).is_ok(),
+                    Kind::Slow => fast.feed(x).is_ok(),
+                    Kind::Atr | Kind::Kc | Kind::Ce => tr.feed(x).is_ok() && mx.feed(x).is_ok() && mn.feed(x).is_ok(),
+                    Kind::Cci => sma.feed(x).is_ok() && mad.feed(x).is_ok(),
+                    _ => e1.feed(x).is_ok(),
+                };
+                if parts_ok {
+                    let sig = format!("{}/c15.composite_panics_where_parts_run/panic", kind.name());
+                    if c.rep.is_new_sig(&sig) {
+                        let detail = format!("{} t={}: the composite panicked ({}) on an input its public parts process normally", p.label(), t, pn.0);
+                        let replay = replay_rerun("C15", &sig, &detail, json!({"params": p.to_json(), "ops": ops_json(hist)}));
+                        c.rep.violation(sig, detail, replay);
+                    } else {
+                        c.rep.violation_again(&sig);
+                    }
+                }
+                return;
+            }
         };
         let s = match x {
             In::S(v) => *v,
@@ -265,6 +286,18 @@ pub fn run(ctx: &Ctx) -> Report {
         } else {
             inputs
         };
+        // a sixteenth of the streams mix the two feed forms on one instance (ATR and KC take both): bars and
+        // bare closes in turn, as a program does that has full bars for some sessions only
+        let mixed = bars && idx % 16 == 13;
+        let inputs: Vec<In> = if mixed {
+            rep.count("streams.mixed_bar_and_scalar_feeds");
+            inputs.iter().enumerate().map(|(i, x)| match x {
+                In::B(b) if (i / 3) % 2 == 1 => In::S(b.c),
+                o => *o,
+            }).collect()
+        } else {
+            inputs
+        };
         let head: Vec<f64> = inputs.iter().take(16).flat_map(|x| match x {
             In::S(v) => vec![*v],
             In::B(b) => b.fields().to_vec(),
@@ -276,6 +309,9 @@ pub fn run(ctx: &Ctx) -> Report {
             // PPO on mixed-sign streams is judged only where its slow EMA is away from zero
             // (condition number <= 1e6), like the property says
             let mut p = variant(kind, &mut rng);
+            if mixed && !matches!(kind, Kind::Atr | Kind::Kc) {
+                continue;
+            }
             if near_max {
                 if !matches!(kind, Kind::Atr | Kind::Macd | Kind::Kc) {
                     continue;
